@@ -105,6 +105,16 @@ impl IpDefragBuf {
                     conflicting_end: end,
                 });
             }
+        } else if false == more_fragments {
+            // the end must not be before already received data
+            if let Some(received_end) = self.sections.iter().map(|s| s.end).max() {
+                if end < received_end {
+                    return Err(ConflictingEnd {
+                        previous_end: received_end,
+                        conflicting_end: end,
+                    });
+                }
+            }
         }
 
         // get enough memory to store the de-fragmented
